@@ -248,6 +248,98 @@ def rrunActs (fx : Fix) (cfg : Cfg) (d : Dag) (rs : RS) : List Act → Option RS
     | some rs' => rrunActs fx cfg d rs' as
     | none => none
 
+/-! ### a resumed run that fails again
+
+The cause that was removed need not be the only one: in the resumed run another function may raise
+(`fails`).  `rstepF` is `rstep` with that possibility (transcribed from `Exec.step`: a local failure
+marks the node failed, announces `failed` instead of `ran`, the composite collects the error; a failing
+executor job is found when the loop has drained); with no failing function it IS `rstep`
+(`rstepF_nofail`).  `RS.snapshot` is what the second recovery file holds. -/
+
+def rrunNodeF (fails : Nat → Bool) (fx : Fix) (d : Dag) (rs : RS) (i : Nat) : RS × Outcome :=
+  let s := rs.s
+  let a := fetchArgs d s.out i
+  if s.st i ≠ .idle ∨ a.any Val.isNd then
+    (rs, .raised)
+  else if rs.cache i = some a ∧ fx.dirty i = false then
+    ({ rs with s := { s with calls := updF s.calls i (s.calls i + 1), args := updF s.args i a,
+                             execLog := s.execLog ++ [i], doneLog := s.doneLog ++ [i],
+                             st := updF s.st i .done, queue := s.queue ++ emit d i } }, .ok)
+  else
+    let s1 := { s with calls := updF s.calls i (s.calls i + 1), args := updF s.args i a,
+                       execLog := s.execLog ++ [i] }
+    let rs1 := { rs with cache := updF rs.cache i (some a), fcalls := updF rs.fcalls i (rs.fcalls i + 1) }
+    if d.onExec i then
+      ({ rs1 with s := { s1 with st := updF s.st i .out, running := s.running ++ [i] } }, .ok)
+    else if fails i then
+      ({ rs1 with cache := updF rs.cache i none,
+                  s := { s1 with st := updF s.st i .failed, doneLog := s.doneLog ++ [i] } }, .raised)
+    else
+      ({ rs1 with s := { s1 with st := updF s.st i .done, out := updF s.out i (.app (fx.sym i) a),
+                                 doneLog := s.doneLog ++ [i], queue := s.queue ++ emit d i } }, .ok)
+
+def rstepF (fails : Nat → Bool) (fx : Fix) (cfg : Cfg) (d : Dag) (rs : RS) : Act → Option RS
+  | .start =>
+    match rs.s.phase with
+    | .run (i :: rest) =>
+      match rrunNodeF fails fx d rs i with
+      | (r', .ok) => some { r' with s := { r'.s with phase := .run rest } }
+      | (r', .raised) =>
+        if cfg.startAborts then some { r' with s := { r'.s with phase := .aborted } }
+        else some { r' with s := { r'.s with phase := .run rest, errs := r'.s.errs ++ [i] } }
+    | _ => none
+  | .deliver =>
+    match rs.s.phase, rs.s.queue with
+    | .run [], (j, i) :: q =>
+      let rec' := j :: rs.s.received i
+      if (d.deps i).all (fun x => rec'.contains x) then
+        match rrunNodeF fails fx d { rs with s := { rs.s with queue := q, received := updF rs.s.received i [] } } i with
+        | (r', .ok) => some r'
+        | (r', .raised) => some { r' with s := { r'.s with errs := r'.s.errs ++ [i] } }
+      else
+        some { rs with s := { rs.s with queue := q, received := updF rs.s.received i rec' } }
+    | _, _ => none
+  | .complete k =>
+    match rs.s.phase with
+    | .run _ =>
+      if rs.s.st k = .out then
+        if fails k then
+          some { rs with cache := updF rs.cache k none,
+                         s := { rs.s with running := rs.s.running.erase k, doneLog := rs.s.doneLog ++ [k],
+                                          st := updF rs.s.st k .failed,
+                                          errs := if cfg.reportExecFailure then rs.s.errs ++ [k] else rs.s.errs } }
+        else
+          some { rs with s := { rs.s with running := rs.s.running.erase k, doneLog := rs.s.doneLog ++ [k],
+                                          st := updF rs.s.st k .done,
+                                          out := updF rs.s.out k (.app (fx.sym k) (rs.s.args k)),
+                                          queue := rs.s.queue ++ emit d k } }
+      else none
+    | _ => none
+  | .exit =>
+    match rs.s.phase, rs.s.queue, rs.s.running with
+    | .run [], [], [] => some { rs with s := { rs.s with phase := .exited } }
+    | _, _, _ => none
+
+theorem rrunNodeF_nofail (fx : Fix) (d : Dag) (rs : RS) (i : Nat) :
+    rrunNodeF (fun _ => false) fx d rs i = rrunNode fx d rs i := by
+  simp [rrunNodeF, rrunNode]
+
+theorem rstepF_nofail (fx : Fix) (cfg : Cfg) (d : Dag) (rs : RS) (a : Act) :
+    rstepF (fun _ => false) fx cfg d rs a = rstep fx cfg d rs a := by
+  cases a <;> simp [rstepF, rstep, rrunNodeF_nofail]
+
+/-- what a file written during / after the resumed run holds of this level: flags, outputs, the caches as
+they are (a node that has not been reached again still has the entry it was loaded with), triggers -/
+def RS.snapshot (rs : RS) : Snap :=
+  { failed := fun i => rs.s.st i == .failed,
+    running := fun i => rs.s.st i == .out,
+    out := rs.s.out,
+    received := rs.s.received,
+    cache := fun i => match rs.s.st i with
+      | .out => none
+      | .failed => none
+      | _ => rs.cache i }
+
 /-- the children that come back unable to answer from their cache although they had completed: the
 composites — all of them when a restored composite forgets its cache, else those with new input values
 somewhere inside (`_internal_cache_key` differs from `_cached_internals`) -/
